@@ -125,7 +125,7 @@ func runOnce(t *testing.T, cfg *Config, prefix []Point, visited map[uint64]int8,
 		})
 	}()
 	for _, p := range x.Points {
-		if !p.Env && (p.CurEnabled || cfg.Delay) && p.Chosen > 0 {
+		if (p.EnvCost || !p.Env && (p.CurEnabled || cfg.Delay)) && p.Chosen > 0 {
 			x.Preempt++
 		}
 	}
@@ -259,7 +259,7 @@ func Explore(t *testing.T, cfg *Config) *Result {
 				if i >= len(it.prefix) {
 					for alt := 1; alt < p.N; alt++ {
 						c := cost
-						if !p.Env && (p.CurEnabled || cfg.Delay) {
+						if p.EnvCost || !p.Env && (p.CurEnabled || cfg.Delay) {
 							c++
 						}
 						if c > cfg.Bound {
@@ -267,11 +267,11 @@ func Explore(t *testing.T, cfg *Config) *Result {
 						}
 						np := make([]Point, i+1)
 						copy(np, x.Points[:i])
-						np[i] = Point{N: p.N, Chosen: alt, Env: p.Env}
+						np[i] = Point{N: p.N, Chosen: alt, Env: p.Env, EnvCost: p.EnvCost}
 						stacks[c] = append(stacks[c], item{prefix: np})
 					}
 				}
-				if !p.Env && (p.CurEnabled || cfg.Delay) && p.Chosen > 0 {
+				if (p.EnvCost || !p.Env && (p.CurEnabled || cfg.Delay)) && p.Chosen > 0 {
 					cost++
 				}
 				if p.Env {
